@@ -48,6 +48,30 @@ def heads_of(front_clauses):
     return out
 
 
+def load_check_same_path(code):
+    """the code is written to a path from which the engine has loaded another script before (a recompiled
+    output file, loaded again): None, or what is wrong with the definitions afterwards"""
+    import tempfile, os
+    fd, path = tempfile.mkstemp(prefix='yldverif', suffix='.py')
+    try:
+        with os.fdopen(fd, 'w', encoding='utf8') as f:
+            f.write('def earlier_1(arg1):\n    if False:\n        yield False\n')
+        yp = E.YP()
+        yp.load_script_from_file(path)
+        with open(path, 'w', encoding='utf8') as f:
+            f.write(code)
+        before = dict(yp.eval_context)
+        try:
+            yp.load_script_from_file(path)
+        except Exception as e:
+            return 'load_script_from_file raised %s: %s' % (type(e).__name__, str(e)[:100]), set()
+        added = {k for k in yp.eval_context if k not in before or yp.eval_context[k] is not before[k]}
+        added.discard('__builtins__')
+        return None, added
+    finally:
+        os.unlink(path)
+
+
 def load_check(code):
     """loads the code into a fresh engine; returns (problem or None, set of keys added)"""
     try:
